@@ -68,7 +68,7 @@ def Record(fields, values):
 def truth(av: AVal) -> Optional[bool]:
     if av is not None and av.kind == "record":
         return len(av.value[1]) > 0
-    if av.kind in ("ref", "bound"):
+    if av.kind in ("ref", "bound", "partial"):
         return True
     if av.kind == "const":
         try:
@@ -1300,10 +1300,23 @@ class Walker:
                 return [("val", Ref(res[1]), st)]
             if res and res[0] == "module":
                 return [("val", TRUTHY, st)]
+            if res and res[0] == "global" and len(res) >= 3:
+                # a constant of another module of the repository (module.NAME), never rebound
+                vals_ = res[1].globals.get(res[2]) or []
+                if len(vals_) == 1 and not _is_global_written(self.prog, res[1], res[2]):
+                    lv = _literal(vals_[0])
+                    if lv is not NOCONST:
+                        return [("val", Const(lv), st)]
             if res and res[0] == "ext":
                 known = EXT_CONSTS.get(res[1])
                 if known is not None:
                     return [("val", Const(known), st)]
+                if res[1].startswith("re.") and res[1].count(".") == 1 and res[1][3:].isupper():
+                    import re as _re
+
+                    fv_ = getattr(_re, res[1][3:], None)
+                    if isinstance(fv_, int):
+                        return [("val", Const(fv_), st)]
                 if res[1].startswith("stat.") and res[1].count(".") == 1:
                     # the integer constants of the stat module (ST_MODE, S_IFREG ...) are fixed by POSIX
                     import stat as _stat
@@ -1631,6 +1644,18 @@ class Walker:
     # ------------------------------------------------------------------ calls
     def e_Call(self, node: ast.Call, st):
         func, concrete = self.frame
+        if isinstance(node.func, ast.Name):
+            held_p = st.env.get(node.func.id)
+            if held_p is not None and held_p.kind == "partial" and not any(isinstance(a, ast.Starred) for a in node.args):
+                # a local holding functools.partial(f, ...): calling it calls f with the stored arguments first
+                synth, ptarget, pargs, pkws = held_p.value
+
+                def contp(vals, s):
+                    args_ = list(pargs) + vals[:len(node.args)]
+                    kws_ = dict(pkws)
+                    kws_.update(zip([k.arg for k in node.keywords], vals[len(node.args):]))
+                    return self._do_call(synth, ptarget, args_, kws_, s)
+                return self._seq(list(node.args) + [k.value for k in node.keywords], st, contp)
         target = self.resolver.resolve(node, func, concrete)
         if target.kind == "unknown" and isinstance(node.func, ast.Name):
             held = st.env.get(node.func.id)
@@ -1717,16 +1742,27 @@ class Walker:
                 except (IndexError, ValueError) as exc:
                     s.add(Event("raise", node, type(exc).__name__, self.frame, "implicit"))
                     return [("raise", type(exc).__name__, s)]
-            if self.exact_loops and isinstance(node.func, ast.Attribute) and node.func.attr in _LIST_MUTATORS and not kws \
+            if self.exact_loops and isinstance(node.func, ast.Attribute) and node.func.attr in (_LIST_MUTATORS | _SET_MUTATORS | _DICT_MUTATORS) and not kws \
+                    and not all(a.kind == "const" for a in args):
+                holder_ = self._lookup(node.func.value, s)
+                if holder_ is not None and holder_.kind == "const" and isinstance(holder_.value, (list, set, dict)) \
+                        and node.func.attr in {list: _LIST_MUTATORS, set: _SET_MUTATORS, dict: _DICT_MUTATORS}[type(holder_.value)]:
+                    # the container changes by a value that is not known: what was known about it is forgotten
+                    if isinstance(node.func.value, ast.Name):
+                        s.env[node.func.value.id] = TRUTHY if node.func.attr in ("append", "add", "insert") else UNK
+                    else:
+                        s.facts[norm(node.func.value)] = TRUTHY if node.func.attr in ("append", "add", "insert") else UNK
+            if self.exact_loops and isinstance(node.func, ast.Attribute) and node.func.attr in (_LIST_MUTATORS | _SET_MUTATORS | _DICT_MUTATORS) and not kws \
                     and all(a.kind == "const" for a in args):
                 holder_ = self._lookup(node.func.value, s)
-                if holder_ is not None and holder_.kind == "const" and isinstance(holder_.value, list):
+                if holder_ is not None and holder_.kind == "const" and isinstance(holder_.value, (list, set, dict)) \
+                        and node.func.attr in {list: _LIST_MUTATORS, set: _SET_MUTATORS, dict: _DICT_MUTATORS}[type(holder_.value)]:
                     import copy as _copy
 
                     new_ = _copy.copy(holder_.value)
                     try:
                         r_ = getattr(new_, node.func.attr)(*[a.value for a in args])
-                    except (ValueError, IndexError) as exc:
+                    except (ValueError, IndexError, KeyError) as exc:
                         s.add(Event("raise", node, type(exc).__name__, self.frame, "implicit"))
                         return [("raise", type(exc).__name__, s)]
                     except Exception:
@@ -1779,6 +1815,18 @@ class Walker:
                         vals_[nt._fields.index(k)] = v
                     if all(v is not None for v in vals_):
                         return [("val", Record(nt._fields, vals_), s)]
+            if tgt.kind == "ext" and tgt.name == "functools.partial" and node.args and not any(isinstance(a_, ast.Starred) for a_ in node.args) \
+                    and all(k.arg is not None for k in node.keywords) and self.exact_loops is not None:
+                synth = getattr(node, "_pgv_partial", None)
+                if synth is None:
+                    synth = ast.Call(func=node.args[0], args=list(node.args[1:]), keywords=list(node.keywords))
+                    ast.copy_location(synth, node)
+                    try:
+                        node._pgv_partial = synth
+                    except Exception:
+                        pass
+                ptarget = self.resolver.resolve(synth, self.frame[0], self.frame[1])
+                return [("val", AVal("partial", (synth, ptarget, tuple(args[1:]), tuple(kws.items()))), s)]
             return self._do_call(node, tgt, args, kws, s)
 
         return self._seq(pre + argnodes + kwnodes, st, cont)
@@ -1809,6 +1857,8 @@ class Walker:
             return [("val", fact if fact is not None else UNK, s)]
         if name == "builtins.type" and len(args) == 1 and args[0].kind == "const" and type(args[0].value) in _BUILTIN_TYPES.values():
             return [("val", Const(type(args[0].value)), s)]
+        if name in ("builtins.tuple", "builtins.list", "builtins.set", "builtins.frozenset", "builtins.dict") and not args and not kws and self.exact_loops:
+            return [("val", Const({"tuple": tuple, "list": list, "set": set, "frozenset": frozenset, "dict": dict}[name.split(".")[-1]]()), s)]
         if name in ("builtins.tuple", "builtins.list", "builtins.set", "builtins.frozenset", "builtins.sorted") and len(args) == 1 and not kws \
                 and args[0].kind == "const" and isinstance(args[0].value, (tuple, list, set, frozenset, dict, str)):
             try:
@@ -1840,6 +1890,12 @@ class Walker:
             m_ = self.prog.resolve_method(concrete, args[1].value)
             if m_ is not None:
                 return [("val", AVal("bound", m_), s)]
+        if dotted(node.func) == "dict.fromkeys" and 1 <= len(args) <= 2 and not kws and all(a.kind == "const" for a in args) \
+                and isinstance(args[0].value, (list, tuple, str, dict)):
+            try:
+                return [("val", Const(dict.fromkeys(*[a.value for a in args])), s)]
+            except TypeError:
+                pass
         if name == "builtins.range" and 1 <= len(args) <= 3 and not kws and all(a.kind == "const" and type(a.value) is int for a in args):
             try:
                 r_ = range(*[a.value for a in args])
@@ -1901,12 +1957,15 @@ class Walker:
                 return [("val", Const(getattr(_re, name.split(".")[-1])(*[a.value for a in args], **{k: v.value for k, v in kws.items()})), s)]
             except Exception:
                 pass
-        if name in ("re.search", "re.match", "re.fullmatch") and len(args) == 2 and all(a.kind == "const" for a in args) and not kws \
-                and isinstance(args[0].value, (str, bytes)) and isinstance(args[1].value, type(args[0].value)):
+        if name in ("re.search", "re.match", "re.fullmatch") and len(args) in (2, 3) and all(a.kind == "const" for a in args) \
+                and all(k == "flags" and v.kind == "const" for k, v in kws.items()) \
+                and isinstance(args[0].value, (str, bytes)) and isinstance(args[1].value, type(args[0].value)) \
+                and all(isinstance(a.value, int) for a in list(args[2:]) + list(kws.values())):
             import re as _re
 
             try:
-                return [("val", Const(getattr(_re, name.split(".")[-1])(args[0].value, args[1].value)), s)]
+                return [("val", Const(getattr(_re, name.split(".")[-1])(args[0].value, args[1].value, *[a.value for a in args[2:]],
+                                                                        **{k: v.value for k, v in kws.items()})), s)]
             except _re.error:
                 pass
         if name in ("typing.cast",) and len(args) == 2:
@@ -2178,6 +2237,8 @@ def _namedtuple_type(cls):
 
 
 _LIST_MUTATORS = {"append", "extend", "insert", "remove", "pop", "sort", "reverse", "clear"}
+_SET_MUTATORS = {"add", "discard", "remove", "update", "clear", "pop", "difference_update", "intersection_update"}
+_DICT_MUTATORS = {"update", "pop", "setdefault", "clear", "popitem"}
 
 
 def _declared_globals(func) -> set:
@@ -2360,6 +2421,22 @@ def _names_of(node):
 NOCONST = object()
 
 
+def _regex_flags(node):
+    """Value of a flags expression of the re module (re.I | re.ASCII, 0, re.RegexFlag.X); None when it is something else."""
+    import re as _re
+
+    if isinstance(node, ast.Constant) and isinstance(node.value, int):
+        return node.value
+    if isinstance(node, ast.BinOp) and isinstance(node.op, ast.BitOr):
+        a, b = _regex_flags(node.left), _regex_flags(node.right)
+        return None if a is None or b is None else a | b
+    d = dotted(node) or ""
+    if d.startswith("re.") and d.split(".")[-1].isupper():
+        v = getattr(_re, d.split(".")[-1], None)
+        return int(v) if isinstance(v, int) else None
+    return None
+
+
 def _literal(node):
     """Python value of a literal made of constants (tuples/lists/sets become tuples); NOCONST otherwise."""
     if isinstance(node, ast.Constant):
@@ -2382,12 +2459,20 @@ def _literal(node):
     if isinstance(node, ast.UnaryOp) and isinstance(node.op, ast.USub) and isinstance(node.operand, ast.Constant) \
             and isinstance(node.operand.value, (int, float)):
         return -node.operand.value
-    if isinstance(node, ast.Call) and dotted(node.func) == "re.compile" and node.args and not node.keywords \
-            and all(isinstance(a, ast.Constant) for a in node.args) and isinstance(node.args[0].value, (str, bytes)):
+    if isinstance(node, ast.Call) and dotted(node.func) == "re.compile" and node.args and len(node.args) <= 2 \
+            and isinstance(node.args[0], ast.Constant) and isinstance(node.args[0].value, (str, bytes)) \
+            and all(k.arg == "flags" for k in node.keywords):
         import re as _re
 
+        flagnodes = list(node.args[1:]) + [k.value for k in node.keywords]
+        flags = 0
+        for fn_ in flagnodes:
+            fv = _regex_flags(fn_)
+            if fv is None:
+                return NOCONST
+            flags |= fv
         try:
-            return _re.compile(*[a.value for a in node.args])
+            return _re.compile(node.args[0].value, flags)
         except Exception:
             return NOCONST
     return NOCONST
